@@ -1,12 +1,15 @@
 """C06 - collection stays in its root, honours the deny list, writes only to the archive.
 
-Three sub-checks (DESIGN.md, section C06):
+Sub-checks (DESIGN.md, section C06; `collect` = round 3, `revisit` = round 4, see design.d/C06.md):
 
 contain  G1/O1  sandbox trees with prefix-sharing siblings, symlinks (relative / absolute / chained /
                 dangling / to system files) and '..' routes; file providers built directly and through
                 simple_file / glob_file / first_file / foreach_collect under HostContext and
                 HostArchiveContext.  Oracle: whatever provider comes back has its real location at or
                 below the real root (component-wise) and its content is the content of that file.
+revisit  G1/O1  the same oracle over a HISTORY in one process: three nested roots, directories / files that are
+                replaced by links (inside, into an outer root, outside) and back, the same datasource object
+                and the same lexical place evaluated again under the same or another of the nested roots.
 deny     G2/O2  host collection of a generated spec set (all nine declarative factories) under a
                 recording context with a generated deny list (installed directly or through
                 insights.collect.apply_blacklist), persisted through Hydration like collect() does.
@@ -44,7 +47,17 @@ RULE = ("contain: tree = root R (name generated) with fixed inner files, 0-3 sib
         "segment lists, with '.'/'//' noise; probes: TextFileProvider, RawFileProvider, simple_file, "
         "glob_file, first_file, foreach_collect under HostContext / HostArchiveContext. Non-trivial: a "
         "probe path contains '..' or crosses a symlink and a prefix-sharing sibling exists. "
-        "deny: 2-7 specs over the nine factories, items drawn from a fixed tree / command vocabulary, "
+        "revisit: a history of 3-11 steps against one sandbox with three nested candidate roots (outer, "
+        "outer/inner, outer/inner/sub), five directory slots (plain directory or link to any other directory "
+        "of the tree, inside / in an outer root / outside) and four file slots (plain file or link); steps = "
+        "tree change | evaluation (kind, context class, 1-3 paths spelled relative to the chosen root, with "
+        "'..' when the place is not below it) | evaluation of an earlier step's datasource object again "
+        "under the same or another root; 1-2 'hot' slots per history attract most changes and paths. The "
+        "oracle runs after every evaluation. Non-trivial: an evaluation names a lexical directory from which "
+        "an earlier evaluation served content, after a tree change or under another root. "
+        "deny: 2-7 specs over the nine factories, items drawn from a fixed tree / command vocabulary (file "
+        "names with a blank, a run of blanks, a tab; command words separated by one blank, runs of blanks, "
+        "tabs; entries cut in front of any blank/tab of the command line), "
         "deny entries = items, word-boundary prefixes of commands, near misses and unrelated strings, "
         "denied component names (full names under 'components', symbolic names of nine shipped "
         "DefaultSpecs entries under files/commands); non-trivial: one factory has both a denied and an "
@@ -58,6 +71,11 @@ ASSUMPTIONS = [
     "deny matching is the documented literal rule on the path / command as the spec names it: file = "
     "exact path, command = equal to an entry or continuing it after a space (aliases through symlinks "
     "or '..' are not expected to be blocked; over-blocking is not a violation)",
+    "a command line denied by the literal rule and a not denied one that differ only in the blanks between "
+    "their words are the same argv for the execution context: for such a pair only the returned providers are "
+    "judged, not the argv log (labelled denied-argv-shared-with-allowed-command)",
+    "revisit: the tree is changed only between evaluations (single thread), never during one; the real location "
+    "of a provider is taken right after the evaluation that returned it",
     "commands are never executed: a recording HostContext answers every command with generated output; "
     "only grep/cat/cp on sandbox files really run; container engines are the always present "
     "/usr/bin/env and /usr/bin/true (podman/docker are not assumed to exist)",
@@ -421,6 +439,50 @@ def c_root(case, base):
     return R
 
 
+def judge_providers(providers, rroot, base, by_real, raw, labels, where=""):
+    """O1 for the providers one evaluation returned: whatever yields content has its real location (now, i.e.
+    right after the evaluation) at or below the real root, and the content is that file's.  Returns
+    (number of providers served from inside, whether one of them was reached through a link or '..')."""
+    served_in = 0
+    crossing = False
+    for p in providers:
+        real = os.path.realpath(p.path)
+        inside = ref_inside(real, rroot)
+        content = None
+        try:
+            content = p.content
+        except Exception:  # noqa - directory, empty file under HostContext, ...: nothing yielded
+            if not raw:
+                try:
+                    content = list(p.stream())
+                except Exception:  # noqa
+                    pass
+        if content is None:
+            # a provider object that cannot produce anything yields no content: outside the
+            # statement wherever it points
+            labels.append("provider-without-content" + ("" if inside else "-outside"))
+            continue
+        if not inside:
+            shown = content if content is None or isinstance(content, list) else repr(content[:80])
+            raise Violation(
+                "%sfile provider returned for a path whose real location is outside the root: "
+                "root=%s path=%s -> %s (content served: %r)" % (
+                    where, os.path.relpath(rroot, base), p.relative_path, os.path.relpath(real, base)
+                    if is_within(real, base) else real, shown),
+                root=rroot, path=p.path, real=real)
+        want = by_real.get(real)
+        if want is None:
+            raise Violation("%scontent served for %s which is not a file of the tree" % (where, real))
+        got = content.decode("utf-8") if raw else "\n".join(content) + "\n"
+        if got != want:
+            raise Violation("%scontent of %s differs from the in-root file it resolves to" % (where, p.path),
+                            got=got, want=want)
+        served_in += 1
+        if real != os.path.normpath(p.path):
+            crossing = True
+    return served_in, crossing
+
+
 def check_contain(case):
     from insights.core import spec_factory as sf
     from insights.core.context import HostContext, HostArchiveContext
@@ -496,43 +558,7 @@ def check_contain(case):
             providers.extend(got)
             if not got:
                 rejected += 1
-        served_in = served_out = 0
-        crossing = False
-        for p in providers:
-            real = os.path.realpath(p.path)
-            inside = ref_inside(real, rroot)
-            content = None
-            try:
-                content = p.content
-            except Exception:  # noqa - directory, empty file under HostContext, ...: nothing yielded
-                if not raw:
-                    try:
-                        content = list(p.stream())
-                    except Exception:  # noqa
-                        pass
-            if content is None:
-                # a provider object that cannot produce anything yields no content: outside the
-                # statement wherever it points
-                labels.append("provider-without-content" + ("" if inside else "-outside"))
-                continue
-            if not inside:
-                shown = content if content is None or isinstance(content, list) else repr(content[:80])
-                raise Violation(
-                    "file provider returned for a path whose real location is outside the root: "
-                    "root=%s path=%s -> %s (content served: %r)" % (
-                        os.path.relpath(rroot, base), p.relative_path, os.path.relpath(real, base)
-                        if is_within(real, base) else real, shown),
-                    root=rroot, path=p.path, real=real)
-            want = by_real.get(real)
-            if want is None:
-                raise Violation("content served for %s which is not a file of the tree" % real)
-            got = content.decode("utf-8") if raw else "\n".join(content) + "\n"
-            if got != want:
-                raise Violation("content of %s differs from the in-root file it resolves to" % p.path,
-                                got=got, want=want)
-            served_in += 1
-            if real != os.path.normpath(p.path):
-                crossing = True
+        served_in, crossing = judge_providers(providers, rroot, base, by_real, raw, labels)
         if served_in:
             labels.append("served-inside")
         if rejected:
@@ -703,16 +729,275 @@ def strat_contain(tier):
 
 
 # =================================================================================================
+# 1b. containment over a history: several evaluations in one process while the tree changes
+# =================================================================================================
+#
+# The statement quantifies over every evaluation, not over the first one in a fresh directory: whatever an
+# earlier evaluation (another context, another root, the same datasource object, the same path before the
+# tree changed) has seen must not make a later one serve a file from outside ITS root.  A case is a list of
+# steps interpreted against one sandbox: tree changes (a directory replaced by a link and back, a file
+# replaced by a link and back) and evaluations (root = one of three nested, self-similar levels).
+
+H_LEVELS = ["outer", "outer/inner", "outer/inner/sub"]        # candidate roots (each has lnk/, the upper two etc/app/)
+H_FIXED = H_LEVELS + ["outer/etc", "outer/inner/etc", "outer/other", "outer2", "outside"]
+H_SLOTS = ["outer/etc/app", "outer/inner/etc/app"] + [l + "/lnk" for l in H_LEVELS]   # directory or link to one
+H_DIRS = H_FIXED + H_SLOTS
+H_FSLOTS = [l + "/b.conf" for l in H_LEVELS] + ["outer/other/b.conf"]                 # plain file or link to one
+H_FILES = [d + "/a.conf" for d in H_DIRS] + H_FSLOTS
+H_DEEP_SLOTS = [i for i, s in enumerate(H_SLOTS) if sum(1 for l in H_LEVELS if s.startswith(l + "/")) > 1]
+H_DIRECT = ("TextFileProvider", "RawFileProvider")
+H_KINDS = H_DIRECT + ("simple_file", "glob_file", "first_file", "foreach_collect")
+
+
+def h_content(rel):
+    return "LOC<%s>\nsecond line of %s\n" % (rel, rel.rsplit("/", 1)[-1])
+
+
+def h_entries():
+    ents, contents = [], {}
+    for d in H_DIRS:
+        ents.append({"t": "d", "p": d})
+    for f in H_FILES:
+        contents[f] = h_content(f)
+        ents.append({"t": "f", "p": f, "c": contents[f]})
+    return ents, contents
+
+
+def _h_remove(p):
+    if os.path.islink(p) or os.path.isfile(p):
+        os.unlink(p)
+    elif os.path.isdir(p):
+        shutil.rmtree(p)
+
+
+def h_change(base, step):
+    """apply one tree change; the parents of all slots are fixed real directories"""
+    mode = step.get("mode", "rel")
+    if step["op"] == "set":
+        rel = H_SLOTS[step["slot"] % len(H_SLOTS)]
+        p = os.path.join(base, rel)
+        _h_remove(p)
+        if step["to"] is None:
+            os.mkdir(p)
+            with open(os.path.join(p, "a.conf"), "w") as f:
+                f.write(h_content(rel + "/a.conf"))
+            return "dir"
+        target = H_DIRS[step["to"] % len(H_DIRS)]
+        if target == rel:
+            target = "outside"
+    else:
+        rel = H_FSLOTS[step["slot"] % len(H_FSLOTS)]
+        p = os.path.join(base, rel)
+        _h_remove(p)
+        if step["to"] is None:
+            with open(p, "w") as f:
+                f.write(h_content(rel))
+            return "file"
+        target = H_DIRS[step["to"] % len(H_DIRS)] + "/a.conf"
+    full = os.path.join(base, target)
+    os.symlink(full if mode == "abs" else os.path.relpath(full, os.path.dirname(p)), p)
+    return "link"
+
+
+def check_revisit(case):
+    from insights.core import spec_factory as sf
+    from insights.core.context import HostContext, HostArchiveContext
+    from insights.core.plugins import datasource
+    from insights.core import dr
+    ents, contents = h_entries()
+    labels = []
+    nontrivial = False
+    with Sandbox(ents) as sb, GlobalState():
+        base = sb.base
+        by_real = dict((os.path.join(base, p), c) for p, c in contents.items())
+        evals = []        # the probes of the evaluations so far: (id, probe)
+        built = {}        # probe id -> (Specs, Impl, attribute): the same datasource object is evaluated again
+        epoch = 0         # number of tree changes so far
+        accepted = {}     # lexical directory -> [(root index, epoch)] of the evaluations that served a file of it
+        for k, step in enumerate(case["steps"]):
+            if step["op"] in ("set", "fset"):
+                labels.append("change:%s->%s" % ("dir-slot" if step["op"] == "set" else "file-slot",
+                                                 h_change(base, step)))
+                epoch += 1
+                continue
+            if "again" in step:
+                if not evals:
+                    continue
+                pid, probe = evals[step["again"] % len(evals)]
+                labels.append("same-datasource-again")
+            else:
+                pid, probe = k, step
+            evals.append((pid, probe))
+            r = step["root"] % len(H_LEVELS)
+            rroot = os.path.join(base, H_LEVELS[r])               # fixed real directories
+            root = rroot + ("/" if step.get("rootform") == "slash" else "")
+            kind, raw, paths = probe["kind"], bool(probe.get("raw")), list(probe["paths"])
+            if probe["ctx"] == "host":
+                ctxcls, ctx = HostContext, RecordingHostContext(root, real_prefixes=[base])
+            else:
+                ctxcls, ctx = HostArchiveContext, HostArchiveContext(root)
+            labels += ["kind=" + kind, "ctx=" + probe["ctx"], "root=%d" % r]
+            providers = []
+            if kind in H_DIRECT:
+                cls = sf.RawFileProvider if kind == "RawFileProvider" else sf.TextFileProvider
+                raw = kind == "RawFileProvider"
+                for p in paths:
+                    try:
+                        providers.append(cls(p, root=root, ctx=ctx))
+                    except Exception:  # noqa - every refusal is fine
+                        pass
+            else:
+                if pid not in built:
+                    pk = sf.RawFileProvider if raw else sf.TextFileProvider
+                    extra = {}
+                    if kind == "simple_file":
+                        ds = sf.simple_file(paths[0], context=ctxcls, kind=pk)
+                    elif kind == "glob_file":
+                        ds = sf.glob_file(paths, context=ctxcls, kind=pk)
+                    elif kind == "first_file":
+                        ds = sf.first_file(paths, context=ctxcls, kind=pk)
+                    elif kind == "foreach_collect":
+                        def prov(broker, _v=[p.lstrip("/") for p in paths]):
+                            return list(_v)
+                        prov.__name__ = "p%d" % pid
+                        prov = datasource(ctxcls)(prov)
+                        extra["p%d" % pid] = prov
+                        ds = sf.foreach_collect(prov, probe.get("tmpl") or "%s", context=ctxcls, kind=pk)
+                    else:
+                        raise HarnessError("unknown probe kind %r" % (kind,))
+                    attr = "s%d" % pid
+                    multi = kind in ("glob_file", "foreach_collect")
+                    impls = dict(extra)
+                    impls[attr] = ds
+                    _, Specs, Impl = make_specset({attr: sf.RegistryPoint(multi_output=multi, raw=raw)}, impls)
+                    built[pid] = (Specs, Impl, attr)
+                Specs, Impl, attr = built[pid]
+                broker = dr.Broker()
+                broker[ctxcls] = ctx
+                broker = dr.run(dr.get_dependency_graph(getattr(Specs, attr)), broker)
+                providers = flat(broker.get(getattr(Impl, attr)))
+                for more in flat(broker.get(getattr(Specs, attr))):
+                    if not any(more is g for g in providers):
+                        providers.append(more)
+            before = len(labels)
+            served, _ = judge_providers(providers, rroot, base, by_real, raw, labels,
+                                        where="step %d of the history (after %d tree changes): " % (k, epoch))
+            del labels[before:]
+            # --- what this evaluation re-visits (labels / non-triviality only)
+            now = set()
+            for p in providers:
+                try:
+                    if p.loaded:
+                        now.add(os.path.normpath(os.path.dirname(p.path)))
+                except Exception:  # noqa
+                    pass
+            named = set(os.path.normpath(os.path.join(rroot, os.path.dirname(p.lstrip("/")))) for p in paths)
+            for d in sorted(named | now):
+                earlier = [(r0, e0) for r0, e0 in accepted.get(d, ()) if r0 != r or e0 != epoch]
+                if not earlier:
+                    continue
+                nontrivial = True
+                how = "served" if d in now else "refused"
+                if any(r0 != r for r0, _e in earlier):
+                    labels.append("revisit:directory-served-before-under-another-root:now-" + how)
+                if any(e0 != epoch for _r, e0 in earlier):
+                    labels.append("revisit:directory-served-before-the-tree-changed:now-" + how)
+            for d in now:
+                accepted.setdefault(d, []).append((r, epoch))
+            labels.append("served" if served else "nothing-served")
+    return {"nontrivial": nontrivial, "labels": sorted(set(labels))}
+
+
+@st.composite
+def _h_case(draw):
+    # a history concentrates on one or two directories ("hot spots"), so that evaluations really come back
+    # to a place an earlier one has seen
+    # (slots with two or three of the nested roots above them come up more often: the same place can then be
+    # named from an outer and from an inner root)
+    focus = draw(st.lists(st.sampled_from(list(range(len(H_SLOTS))) + H_DEEP_SLOTS), min_size=1, max_size=2,
+                          unique=True))
+    near_roots = sorted(set(i for f in focus for i, l in enumerate(H_LEVELS) if H_SLOTS[f].startswith(l + "/")))
+
+    def a_root():
+        if draw(st.integers(0, 9)) < 7:
+            return draw(st.sampled_from(near_roots))
+        return draw(st.integers(0, len(H_LEVELS) - 1))
+
+    def a_set(slot):
+        to = None if draw(st.integers(0, 3)) == 0 else draw(st.integers(0, len(H_DIRS) - 1))
+        return {"op": "set", "slot": slot, "to": to, "mode": draw(st.sampled_from(["rel", "abs"]))}
+
+    def a_dir():
+        r = draw(st.integers(0, 9))
+        if r < 6:
+            return H_SLOTS[draw(st.sampled_from(focus))]
+        return draw(st.sampled_from(H_DIRS))
+
+    def a_path(root, globbing):
+        d = a_dir()
+        name = draw(st.sampled_from(["a.conf", "a.conf"] + (["b.conf"] if d + "/b.conf" in H_FSLOTS else []) +
+                                    (["*.conf", "?.conf", "[ab].conf"] if globbing else [])))
+        rel = os.path.relpath("/" + d + "/" + name, "/" + H_LEVELS[root])           # '..' when not below the root
+        if draw(st.integers(0, 5)) == 0:
+            rel = "etc/../" + rel
+        return ("/" if draw(st.booleans()) else "") + rel
+
+    steps, n_evals = [], 0
+    if draw(st.integers(0, 9)) < 6:
+        # the tree the first evaluation meets is not always the all-plain one
+        steps = [a_set(f) for f in focus]
+    for _ in range(draw(st.integers(3, 9))):
+        r = draw(st.integers(0, 9))
+        mode = draw(st.sampled_from(["rel", "abs"]))
+        if r < 3:
+            steps.append(a_set(draw(st.sampled_from(focus)) if draw(st.integers(0, 4))
+                               else draw(st.integers(0, len(H_SLOTS) - 1))))
+        elif r == 3:
+            to = None if draw(st.integers(0, 3)) == 0 else draw(st.integers(0, len(H_DIRS) - 1))
+            steps.append({"op": "fset", "slot": draw(st.integers(0, len(H_FSLOTS) - 1)), "to": to, "mode": mode})
+        elif r < 6 and n_evals:
+            # the datasource of an earlier evaluation once more (same object, same relative paths), under
+            # the same or another of the nested roots
+            steps.append({"op": "eval", "again": draw(st.integers(0, n_evals - 1)), "root": a_root(),
+                          "rootform": draw(st.sampled_from(["plain", "plain", "slash"]))})
+            n_evals += 1
+        else:
+            root = a_root()
+            kind = draw(st.sampled_from(H_KINDS))
+            globbing = kind in ("glob_file", "foreach_collect")
+            n = 1 if kind == "simple_file" else draw(st.integers(1, 3))
+            step = {"op": "eval", "root": root, "rootform": draw(st.sampled_from(["plain", "plain", "slash"])),
+                    "ctx": draw(st.sampled_from(["host", "archive"])), "kind": kind, "raw": draw(st.booleans()),
+                    "paths": [a_path(root, globbing) for _ in range(n)]}
+            if kind == "foreach_collect":
+                step["tmpl"] = draw(st.sampled_from(["%s", "/%s"]))
+            steps.append(step)
+            n_evals += 1
+    return {"steps": steps}
+
+
+def strat_revisit(tier):
+    return _h_case()
+
+
+# =================================================================================================
 # 2. deny list
 # =================================================================================================
 
 D_FILES = ["/etc/a.conf", "/etc/a.conf.bak", "/etc/a.con", "/etc/b.conf", "/etc/hosts", "/etc/hosts.allow",
            "/etc/sub/c.conf", "/etc/sub/a.conf", "/var/log/m.log", "/var/log/m.log.1", "/var/log/m",
-           "/top.txt"]
+           "/top.txt",
+           # names with blanks: one blank, a run of two, a tab (each the near miss of the others: a deny entry is
+           # a literal string, "/etc/x  y.conf" is not "/etc/x y.conf")
+           "/etc/x y.conf", "/etc/x  y.conf", "/var/log/t\tu.log", "/var/log/t u.log"]
 D_PATTERNS = ["/etc/*", "/etc/*.conf", "/etc/a.con*", "/etc/hosts*", "/var/log/m*", "/etc/sub/*", "/etc/*/*.conf",
-              "/*/*", "/top.txt", "/etc/[ab].conf"]
+              "/*/*", "/top.txt", "/etc/[ab].conf", "/etc/x*", "/var/log/t*"]
 D_EXES = ["{X}/ls", "{X}/lsblk", "{X}/ls-l", "{X}/cat"]
 D_ARGS = ["-l", "-a", "-la", "/etc", "/etc/a.conf", "-l /etc", "--all -l", "x", "-l -a /var/log"]
+# what separates the words of a command line: mostly one blank, sometimes a run of blanks / a tab (shipped
+# specs are written like that: "/usr/sbin/runuser -l  %s  -c 'db2 get dbm cfg'"); the deny list is matched
+# against the command line as the spec spells it
+D_SEPS = [" "] * 8 + ["  ", "  ", "   ", "\t", " \t"]
 D_FILE_TOKEN = "TOKEN<%s>"
 # shipped specs that can be denied by their symbolic name (insights.specs.default.DefaultSpecs.<name>)
 SYM_SPECS = {"hosts": ("file", "/etc/hosts"), "fstab": ("file", "/etc/fstab"), "cmdline": ("file", "/proc/cmdline"),
@@ -881,6 +1166,12 @@ def check_deny(case):
         per_factory = {}
         sym_cmd_specs = [("default:" + n, {"f": "simple_command", "cmd": SYM_SPECS[n][1]})
                          for n in sym["run"] if SYM_SPECS[n][0] == "cmd"]
+        # The deny list is matched against the command line as the spec spells it, the execution context
+        # gets the words.  Two command lines that differ only in the blanks between their words ("ls -l",
+        # "ls  -l") are different strings for the deny list and the same argv for the context: when a command
+        # that is NOT denied has the argv of a denied one, seeing that argv proves nothing.
+        allowed_argvs = [shlex.split(sub(c)) for _n, s in list(zip(names, specs)) + sym_cmd_specs
+                         if s["f"] in CMD_FACTORIES for c in expand(s) if not ref_cmd_denied(sub(c), deny_cmds)]
         for n, s in list(zip(names, specs)) + sym_cmd_specs:
             fac = s["f"]
             st_ = per_factory.setdefault(fac, {"denied": 0, "allowed": 0})
@@ -888,31 +1179,42 @@ def check_deny(case):
             if fac in CMD_FACTORIES:
                 for c in expand(s):
                     c = sub(c)
+                    argv = shlex.split(c)
+                    shown = "OUT[%s]" % " ".join(argv)      # (what the responder answers for it)
+                    spaced = c != " ".join(argv)
                     if not ref_cmd_denied(c, deny_cmds):
                         if not comp_denied and any(getattr(p, "cmd", None) == c for p in results[n]) and \
-                                any(("OUT[%s]" % c) in t for _, t in persisted):
+                                any(shown in t for _, t in persisted):
                             st_["allowed"] += 1
+                            if spaced:
+                                labels.append("collected:command-with-blank-run")
                         continue
                     st_["denied"] += 1
-                    argv = shlex.split(c)
+                    if spaced:
+                        labels.append("denied:command-with-blank-run")
+                    for m, p in all_providers:
+                        if getattr(p, "cmd", None) == c:
+                            raise Violation("deny-listed command %r is among the results of %s (%s)"
+                                            % (c, m, fac), deny=deny_cmds)
+                    if argv in allowed_argvs:
+                        labels.append("denied-argv-shared-with-allowed-command")
+                        continue
                     if argv in argvs:
                         raise Violation("deny-listed command %r (spec %s, %s) was handed to the execution "
                                         "context" % (c, n, fac), deny=deny_cmds)
                     for pv in popens:
                         if pv[-len(argv):] == argv:
                             raise Violation("deny-listed command %r was spawned: %r" % (c, pv))
-                    for m, p in all_providers:
-                        if getattr(p, "cmd", None) == c:
-                            raise Violation("deny-listed command %r is among the results of %s (%s)"
-                                            % (c, m, fac), deny=deny_cmds)
                     for path, text in persisted:
-                        if ("OUT[%s]" % c) in text:
+                        if shown in text:
                             raise Violation("output of deny-listed command %r was persisted at %s"
                                             % (c, os.path.relpath(path, out)))
             elif fac in FILE_FACTORIES:
                 for f in d_file_items(s):
                     if ref_file_denied(f, deny_files):
                         st_["denied"] += 1
+                        if "  " in f or "\t" in f:
+                            labels.append("denied:file-with-blank-run")
                     elif not comp_denied and any(os.path.normpath(p.path) == os.path.join(R, f.lstrip("/"))
                                                  for p in results[n]) and \
                             any((D_FILE_TOKEN % f) in t for _, t in persisted):
@@ -930,7 +1232,7 @@ def check_deny(case):
         labels.append("denied-component")
     if any(s.get("filter") for s in specs):
         labels.append("filtered-spec")
-    return {"nontrivial": nt, "labels": labels}
+    return {"nontrivial": nt, "labels": sorted(set(labels))}
 
 
 # ---- generator ---------------------------------------------------------------------------------
@@ -938,14 +1240,23 @@ def check_deny(case):
 _cid = st.sampled_from(["c1", "c2", "0a1b2c3d4e5f", "web-1"])
 _engine = st.sampled_from(["env", "true"])
 _image = st.sampled_from(["img", "registry/img:1"])
+_sep = st.sampled_from(D_SEPS)
+
+
+def entry_cuts(c):
+    """where a deny entry that is a leading part of the command line `c` may end: at the end of `c` and in
+    front of every blank / tab (so also inside a run of blanks); the reference rule decides what it denies"""
+    return [i for i in range(1, len(c)) if c[i] in " \t"] + [len(c)]
 
 
 @st.composite
 def _d_cmd(draw):
     exe = draw(st.sampled_from(D_EXES))
     n = draw(st.integers(0, 2))
-    args = [draw(st.sampled_from(D_ARGS)) for _ in range(n)]
-    return " ".join([exe] + args)
+    cmd = exe
+    for _ in range(n):
+        cmd += draw(_sep) + draw(st.sampled_from(D_ARGS))
+    return cmd
 
 
 @st.composite
@@ -970,13 +1281,15 @@ def _d_spec(draw, f=None):
             s["elems"] = [draw(st.sampled_from(D_FILES + D_PATTERNS)) for _ in range(n)]
         elif form == "/etc/%s":
             s["elems"] = [draw(st.sampled_from(["a.conf", "a.conf.bak", "a.con", "b.conf", "hosts", "hosts*",
-                                                "sub/c.conf", "*.conf", "a.con*"])) for _ in range(n)]
+                                                "sub/c.conf", "*.conf", "a.con*", "x y.conf", "x  y.conf",
+                                                "x*"])) for _ in range(n)]
         elif form == "/%s/%s":
             s["elems"] = [[draw(st.sampled_from(["etc", "etc/sub", "var/log", "*"])),
-                           draw(st.sampled_from(["a.conf", "c.conf", "m.log", "m*", "*.conf", "hosts"]))]
+                           draw(st.sampled_from(["a.conf", "c.conf", "m.log", "m*", "*.conf", "hosts", "t\tu.log",
+                                                 "t u.log", "x  y.conf"]))]
                           for _ in range(n)]
         else:
-            s["elems"] = [draw(st.sampled_from(["a", "b", "sub/c", "sub/a", "*"])) for _ in range(n)]
+            s["elems"] = [draw(st.sampled_from(["a", "b", "sub/c", "sub/a", "*", "x y", "x  y"])) for _ in range(n)]
     elif f == "simple_command":
         s["cmd"] = draw(_d_cmd())
         s["keep_rc"] = draw(st.booleans())
@@ -985,19 +1298,19 @@ def _d_spec(draw, f=None):
     elif f == "command_with_args":
         exe = draw(st.sampled_from(D_EXES))
         if draw(st.booleans()):
-            s["tmpl"] = exe + " %s"
+            s["tmpl"] = exe + draw(_sep) + "%s"
             s["arg"] = draw(st.sampled_from(D_ARGS))
         else:
-            s["tmpl"] = exe + " %s %s"
+            s["tmpl"] = exe + draw(_sep) + "%s" + draw(_sep) + "%s"
             s["arg"] = [draw(st.sampled_from(D_ARGS)), draw(st.sampled_from(D_ARGS))]
     elif f == "foreach_execute":
         exe = draw(st.sampled_from(D_EXES))
         n = draw(st.integers(1, 4))
         if draw(st.booleans()):
-            s["tmpl"] = exe + " %s"
+            s["tmpl"] = exe + draw(_sep) + "%s"
             s["elems"] = [draw(st.sampled_from(D_ARGS)) for _ in range(n)]
         else:
-            s["tmpl"] = exe + " %s -- %s"
+            s["tmpl"] = exe + draw(_sep) + "%s" + draw(_sep) + "--" + draw(_sep) + "%s"
             s["elems"] = [[draw(st.sampled_from(D_ARGS)), draw(st.sampled_from(D_ARGS))] for _ in range(n)]
         s["keep_rc"] = draw(st.booleans())
     elif f == "container_execute":
@@ -1006,7 +1319,7 @@ def _d_spec(draw, f=None):
             s["tmpl"] = draw(_d_cmd())
             s["elems"] = [[draw(_image), draw(_engine), draw(_cid)] for _ in range(n)]
         else:
-            s["tmpl"] = draw(st.sampled_from(D_EXES)) + " %s"
+            s["tmpl"] = draw(st.sampled_from(D_EXES)) + draw(_sep) + "%s"
             s["elems"] = [[draw(_image), draw(_engine), draw(_cid), draw(st.sampled_from(D_ARGS))]
                           for _ in range(n)]
     elif f == "container_collect":
@@ -1045,14 +1358,17 @@ def _d_case(draw):
                                                     "/etc/../" + f.lstrip("/")])))
     for c in cmds:
         r = draw(st.integers(0, 9))
-        words = c.split(" ")
+        words = c.split()
         if r < 3:
-            k = draw(st.integers(1, len(words)))
-            deny_cmds.append(" ".join(words[:k]))
+            # the command line up to a word boundary, spelled exactly like the spec spells it (a cut in front
+            # of a tab, or one that leaves a trailing blank, is an entry like any other: the literal rule says
+            # what it matches)
+            deny_cmds.append(c[:draw(st.sampled_from(entry_cuts(c)))])
         elif r == 3:
             deny_cmds.append(draw(st.sampled_from([c[:-1], c + "x", c + " ", words[0][:-1], words[0] + "b",
                                                    os.path.basename(words[0]), c.replace(" ", "  ", 1),
-                                                   " " + c, words[0].upper()])))
+                                                   " " + c, words[0].upper(), " ".join(words),
+                                                   "\t".join(words)])))
     extra = draw(st.lists(st.sampled_from(["hostname", "ls", "/etc", "{X}", "/bin/ls", "/usr/bin/env exec",
                                            "/usr/bin", "uname -a", "/etc/passwd", "s0"]), max_size=2))
     for e in extra:
@@ -1287,8 +1603,9 @@ def check_collect(case):
         src, out, mods = [os.path.join(work, d) for d in ("src", "out", "mods")]
         for d in (src, out, mods):
             os.makedirs(d)
-        specs = case["specs"]          # [{"kind": "file"|"cmd", "deny": None|"component"|"literal"|"point"}]
-        paths, markers = [], []
+        specs = case["specs"]          # [{"kind": "file"|"cmd", "deny": None|"component"|"literal"|"point",
+        #                                   "ws": blanks inside the file name / between the words of the command}]
+        paths, markers, cmds = [], [], []
         body = ["from insights.core.spec_factory import RegistryPoint, SpecSet, simple_command, simple_file", "",
                 "class Specs(SpecSet):"]
         for k, sp in enumerate(specs):
@@ -1296,17 +1613,20 @@ def check_collect(case):
         body += ["", "class Impl(Specs):"]
         for k, sp in enumerate(specs):
             if sp["kind"] == "file":
-                pth = os.path.join(src, "f%d.conf" % k)
+                ws = sp.get("ws")
+                pth = os.path.join(src, "f%d%s.conf" % (k, ws + "x" if ws else ""))
                 with open(pth, "w") as f:
                     f.write("content of spec %d\nSECRET%d\n" % (k, k))
                 paths.append(pth)
                 markers.append(None)
+                cmds.append(None)
                 body.append("    s%d = simple_file(%r)" % (k, pth))
             else:
                 mk = os.path.join(src, "marker%d" % k)
                 paths.append(None)
                 markers.append(mk)
-                body.append("    s%d = simple_command(%r)" % (k, "/usr/bin/touch " + mk))
+                cmds.append("/usr/bin/touch" + (sp.get("ws") or " ") + mk)
+                body.append("    s%d = simple_command(%r)" % (k, cmds[k]))
         with open(os.path.join(mods, modname + ".py"), "w") as f:
             f.write("\n".join(body) + "\n")
         rm_conf = {"files": [], "commands": [], "components": []}
@@ -1319,7 +1639,7 @@ def check_collect(case):
                 if sp["kind"] == "file":
                     rm_conf["files"].append(paths[k])
                 else:
-                    rm_conf["commands"].append("/usr/bin/touch " + markers[k])
+                    rm_conf["commands"].append(cmds[k])
                 denied.add(k)
         cfg_style = case["configs"]
         configs = [{"name": "insights.core.spec_factory", "enabled": True}]
@@ -1379,13 +1699,14 @@ def check_collect(case):
                 ran = os.path.exists(markers[k])
                 if k in denied and ran:
                     raise Violation("the command of a spec on the deny list (%s) was executed during collection"
-                                    % sp["deny"], command="/usr/bin/touch " + markers[k], rm_conf=rm_conf, configs=configs)
+                                    % sp["deny"], command=cmds[k], rm_conf=rm_conf, configs=configs)
                 if k not in denied and ran:
                     collected_any = True
         allowed = [k for k in range(len(specs)) if k not in denied]
         if allowed and not collected_any:
             raise HarnessError("nothing was collected although %d specs are not denied" % len(allowed))
-        labels = ["configs=" + cfg_style] + sorted(set("deny=%s/%s" % (sp["deny"], sp["kind"]) for sp in specs))
+        labels = ["configs=" + cfg_style] + sorted(set("deny=%s/%s%s" % (
+            sp["deny"], sp["kind"], "/blank-run" if (sp.get("ws") or " ") != " " else "") for sp in specs))
         return {"nontrivial": bool(denied) and bool(allowed), "labels": labels}
     finally:
         if sys.path and sys.path[0] == os.path.join(work, "mods"):
@@ -1397,8 +1718,11 @@ def check_collect(case):
 
 @st.composite
 def _collect_case(draw):
+    # "ws": a file name with a blank / a run of blanks / a tab in it, a command line whose words are separated
+    # by more than one blank (the deny list names both literally)
     specs = draw(st.lists(st.fixed_dictionaries({"kind": st.sampled_from(["file", "file", "cmd"]),
-                                                 "deny": st.sampled_from([None, None, "component", "component", "literal"])}),
+                                                 "deny": st.sampled_from([None, None, "component", "component", "literal"]),
+                                                 "ws": st.sampled_from([None, None, None, " ", "  ", "\t", "   "])}),
                           min_size=2, max_size=5))
     return {"specs": specs, "configs": draw(st.sampled_from(["module", "classes", "each"]))}
 
@@ -1409,7 +1733,8 @@ def strat_collect(tier):
 
 SUBS = [
     Sub("collect", check_collect, strategy=strat_collect, quick=120, thorough=1500, workers_quick=4, workers_thorough=8),
-    Sub("contain", check_contain, strategy=strat_contain, quick=500, thorough=4000, workers_quick=4),
+    Sub("contain", check_contain, strategy=strat_contain, quick=450, thorough=4000, workers_quick=4),
+    Sub("revisit", check_revisit, strategy=strat_revisit, quick=200, thorough=2500, workers_quick=4),
     Sub("deny", check_deny, strategy=strat_deny, quick=300, thorough=2500, workers_quick=4),
     Sub("persist", check_persist, strategy=strat_persist, quick=200, thorough=2000, workers_quick=4),
 ]
